@@ -15,6 +15,9 @@ struct RecordMeta {
     position: u64,
 }
 
+#[cfg(mrecordlog_verif)]
+pub(crate) const RECORD_META_SIZE: usize = std::mem::size_of::<RecordMeta>();
+
 #[derive(Default)]
 pub(crate) struct MemQueue {
     // Concatenated records
